@@ -51,6 +51,7 @@ ThVerdict(e) ==
   ELSE IF e.back_tid # e.tid \/ e.back_ssi # e.ssi \/ e.back_priv # e.priv \/ e.back_slen # (e.slen % 1024) THEN "table-header-round-trip"
   ELSE ""
 Verdict(e) == IF e.panic # "" THEN "panic"
+              ELSE IF ~e.earlier_same THEN "table-returned-earlier-reads-differently-after-a-later-call"
               ELSE IF e.op = "pmt" THEN PmtVerdict(e)
               ELSE IF e.op = "readpmt" THEN ReadVerdict(e)
               ELSE IF e.op = "th" THEN ThVerdict(e)
